@@ -57,7 +57,7 @@ def leak_signature(prop, exc):
 # transport faults
 # --------------------------------------------------------------------------------------
 
-FAULT_KINDS = ('flip', 'set', 'lenfield', 'trunc', 'drop', 'dup', 'swap', 'insert', 'splice', 'token', 'name', 'fill', 'const')
+FAULT_KINDS = ('flip', 'set', 'lenfield', 'trunc', 'drop', 'dup', 'swap', 'insert', 'splice', 'token', 'name', 'fill', 'const', 'pair')
 
 
 def apply_faults(stream, faults, res=None):
